@@ -71,8 +71,11 @@ void SelectLoop::runLoop(Mode mode)
                 bool is_except   = FD_ISSET(fd, &except_set);
 
                 if (is_readable || is_writable || is_except) {
-                    auto *data = fd_data_map_.at(fd);
-                    SelectFdEvent::OnEventCallback(is_readable, is_writable, is_except, data);
+                    //! 前面的回调可能已经删除了该fd上最后一个FdEvent，此时共享数据已不存在
+                    auto iter = fd_data_map_.find(fd);
+                    if (iter == fd_data_map_.end())
+                        continue;
+                    SelectFdEvent::OnEventCallback(is_readable, is_writable, is_except, iter->second);
                 }
             }
         } else if (select_ret == -1) {
